@@ -61,6 +61,8 @@ def run(rep, tier):
         slices(rep, meta, g, sfx)
         leading(rep, meta, g, sfx)
         ruleenum(rep, meta, g, sfx)
+        unescaped(rep, meta, sfx)
+    lexicon(rep, g)
 
 
 def rule_of(n):
@@ -609,3 +611,99 @@ def ruleenum(rep, meta, g, sfx):
             r.violation("missing-variant:" + n, "", "grammar.pest defines rule %s but the checked-in parser's Rule enum has no such variant (stale grammar.rs)" % n)
     for v in sorted(vs - names - {"EOI"}):
         r.violation("extra-variant:" + v, "", "Rule::%s has no rule in grammar.pest (stale grammar.rs)" % v)
+
+
+def unescaped(rep, meta, sfx):
+    r = rep.rule("C07.UNESCAPED" + sfx, 4,
+                 "every literal stored in the AST (Str, Insens, Range bounds, PushLiteral) is the result of the escape "
+                 "decoder: sibling terminal arms agree on decoding")
+    # the decoder family: fns of the parser module that (transitively) reach the fn with the escape table
+    cg = hirq.CallGraph([meta])
+    base = [b["path"] for b in meta.bodies if b["path"].startswith("pest_meta::parser::") and b.get("output", "").startswith("core::option::Option<alloc::string::String")
+            and any(kind(x) == "Match" and x.get("sty") == "char" for x in walk(b["body"]))]
+    if not base:
+        r.lost("the escape decoder")
+        return
+    family = set(base)
+    changed = True
+    while changed:
+        changed = False
+        for b in meta.bodies:
+            if b["path"] in family or not b["path"].startswith("pest_meta::parser::"):
+                continue
+            if any(c in family for c in cg.edges.get(b["path"], ())) and "String" in b.get("output", ""):
+                family.add(b["path"])
+                changed = True
+    want = {"Str": [0], "Insens": [0], "Range": [0, 1], "PushLiteral": [0]}
+    for fn in meta.bodies:
+        if not fn["path"].startswith("pest_meta::parser::consume_") or fn.get("exp"):
+            continue
+        lets = hirq.lets(fn["body"])
+        for x in walk(fn["body"]):
+            if kind(x) == "Call" and isinstance(callee(x), str) and callee(x).startswith(PE + "::"):
+                v = callee(x).split("::")[-1]
+                if v not in want:
+                    continue
+                for ai in want[v]:
+                    ok = decoded(x["args"][ai], lets, family)
+                    key = "%s#%d" % (v, ai)
+                    r.instance(key, where(x))
+                    if not ok:
+                        r.violation(key, where(x),
+                                    "the %s literal stored in the AST (`%s`) does not come from the escape decoder: its "
+                                    "escapes are kept verbatim while the same spelling in a sibling literal is decoded"
+                                    % (v, hirq.expr_text(x["args"][ai])))
+
+
+def decoded(a, lets, family, depth=0):
+    a = peel(a)
+    k = kind(a)
+    if depth > 8:
+        return False
+    if k in ("Call", "MethodCall") and callee(a) in family:
+        return True
+    if k == "Match" and a.get("src") == "try":
+        return decoded(a["scrut"]["args"][0], lets, family, depth + 1) if kind(a["scrut"]) == "Call" else False
+    if k == "MethodCall":
+        return decoded(a["recv"], lets, family, depth + 1)
+    if k == "Index":
+        return decoded(a["base"], lets, family, depth + 1)
+    if k == "Call" and a["args"]:
+        return decoded(a["args"][0], lets, family, depth + 1)
+    if k == "Path" and a.get("res") == "local" and a["id"] in lets:
+        return decoded(lets[a["id"]][0], lets, family, depth + 1)
+    return False
+
+
+LEX_WS = {" ", "\t", "\n", "\r\n"}
+
+
+def lexicon(rep, g):
+    r = rep.rule("C07.LEXICON", 2,
+                 "the meta-grammar's implicit whitespace is space, tab, LF and CRLF (so a grammar file may use either "
+                 "line ending anywhere spacing is legal), and comments are `//` lines and nested `/* */` blocks")
+    def strings_of(name, seen=()):
+        if name not in g or name in seen:
+            return None
+        out = set()
+        for a in pestgram.alternatives(g[name][1]):
+            if a[0] == "str":
+                out.add(a[1])
+            elif a[0] == "ident":
+                sub = strings_of(a[1], seen + (name,))
+                if sub is None:
+                    return None
+                out |= sub
+            else:
+                return None
+        return out
+    ws = strings_of("WHITESPACE")
+    r.instance("WHITESPACE", GRAMMAR, repr(sorted(ws)) if ws is not None else "?")
+    if ws is None or ws != {" ", "\t", "\n", "\r\n"}:
+        r.violation("WHITESPACE", GRAMMAR, "meta-grammar WHITESPACE is %s, documented spacing is space / tab / LF / CRLF: "
+                    "a grammar written with the missing form as spacing is rejected" % (sorted(ws) if ws is not None else "not a set of literals"))
+    cm = g.get("COMMENT")
+    names = set(x[1] for x in pestgram.alternatives(cm[1]) if x[0] == "ident") if cm else set()
+    r.instance("COMMENT", GRAMMAR, str(sorted(names)))
+    if names != {"block_comment", "line_comment"}:
+        r.violation("COMMENT", GRAMMAR, "COMMENT alternatives are %s" % sorted(names))
